@@ -1,3 +1,190 @@
 import NdnVerif.Driver.Common
--- stub: replaced by the C18 model driver
-def main : IO Unit := IO.println "DONE lines=0 histories=0 diffs=0 specs=0 skipped=0"
+import NdnVerif.C18.Model
+import NdnVerif.C18.Spec
+open Ndn Ndn.Driver Ndn.C18
+
+namespace C18Drv
+
+/-- spec-side state: built ONLY from the ops and the implementation's outputs -/
+structure SpecSt where
+  n : Nat := 0
+  keys : List Nat := []
+  links : List (Nat × Nat) := []      -- directed pairs (both directions of every up link)
+  nbr : List (Nat × Nat) := []        -- (u, w): u holds a neighbour state for w
+  pending : List (Nat × Nat) := []    -- directed links not yet exchanged in the current fair round
+  rounds : Nat := 0                   -- complete fair rounds since the last disturbance
+  stable : Option String := none      -- dump at the last converged check since the last disturbance
+
+structure St where
+  net : Net := []
+  keys : List Nat := []
+  links : List (Nat × Nat) := []
+  sp : SpecSt := {}
+
+def idxOfKey (keys : List Nat) (k : Nat) : Option Nat :=
+  let i := keys.idxOf k
+  if i < keys.length then some i else none
+
+def optStr : Option Nat → String
+  | some i => toString i
+  | none => "-"
+
+def dashIfEmpty (s : String) : String := if s.isEmpty then "-" else s
+
+/-- canonical dump of one model router (same text as dvsim.DumpRib) -/
+def dumpRouter (keys : List Nat) (r : Router) : String :=
+  let advs := r.rib.advert.map fun a => (idxOfKey keys a.dest, s!"{optStr (idxOfKey keys a.dest)}:{optStr (idxOfKey keys a.nh)}:{a.cost}:{a.other}")
+  let advs := advs.mergeSort fun a b => a.1.getD 0 ≤ b.1.getD 0
+  let ents := r.rib.reachable.map fun e =>
+    let (f1, c1, f2, c2) := fibEntriesOf r.nbrs e
+    (idxOfKey keys e.dest, s!"{optStr (idxOfKey keys e.dest)}:{f1}:{c1}:{f2}:{c2}")
+  let ents := ents.mergeSort fun a b => a.1.getD 0 ≤ b.1.getD 0
+  "adv=" ++ dashIfEmpty (",".intercalate (advs.map (·.2))) ++ " ent=" ++ dashIfEmpty (",".intercalate (ents.map (·.2)))
+
+def dumpAll (keys : List Nat) (net : Net) : String :=
+  " ; ".intercalate ((List.range net.length).zip net |>.map fun (i, r) => s!"r{i} {dumpRouter keys r}")
+
+/-- parse the `adv=` part of an implementation dump -/
+def parseAdv (dump : String) : Option (List Spec.Obs) :=
+  match dump.splitOn " " with
+  | a :: _ =>
+    if !a.startsWith "adv=" then none else
+    let body := (a.drop 4).toString
+    if body == "-" then some [] else
+    (body.splitOn ",").mapM fun item =>
+      match item.splitOn ":" with
+      | [d, nh, c, o] => do
+        let c ← c.toNat?
+        let o ← o.toNat?
+        pure { dest := d.toNat?, nh := nh.toNat?, cost := c, other := o }
+      | _ => none
+  | [] => none
+
+def has (l : List (Nat × Nat)) (p : Nat × Nat) : Bool := l.contains p
+
+def directedAll (sp : SpecSt) : List (Nat × Nat) := sp.links
+
+def disturb (sp : SpecSt) : SpecSt := { sp with rounds := 0, pending := sp.links, stable := none }
+
+def topoOf (sp : SpecSt) : Spec.Topo := { n := sp.n, adj := fun a b => sp.links.contains (a, b) }
+
+/-- no router holds state learnt from a router that is no longer its neighbour -/
+def staleFree (sp : SpecSt) : Bool := sp.nbr.all fun p => sp.links.contains p
+
+def advFiniteFails (who : String) (got : String) : List SpecFail :=
+  match parseAdv got with
+  | some adv =>
+    if Spec.advertFinite adv then [] else
+      [⟨"advert-never-infinite", "cost>=16", s!"{who} advertises a destination with best cost >= 16: {got}"⟩]
+  | none => if isCrash got then [⟨"no-panic", "crash", s!"{who}: {got}"⟩] else
+      [⟨"advert-never-infinite", "unparsable", s!"{who}: unparsable dump {got}"⟩]
+
+def parseNats (l : List String) : Option (List Nat) := l.mapM String.toNat?
+
+def step (s : St) (op : String) (got : String) : StepResult St :=
+  let sp := s.sp
+  match op.splitOn " " with
+  | ["new", ns] =>
+    match ns.toNat? with
+    | none => { st := s, expected := some "bad-op" }
+    | some n =>
+      -- the keys (name hashes) are taken from the implementation; A-hash is checked here
+      match got.splitOn " " with
+      | "ok" :: ks =>
+        match parseNats ks with
+        | some keys =>
+          let okKeys := keys.length == n && keys.eraseDups.length == n && !keys.contains 0
+          let net : Net := keys.map Router.start
+          { st := { net := net, keys := keys, links := [], sp := { n := n, keys := keys } },
+            expected := none,
+            spec := if okKeys then [] else [⟨"A-hash", "keys", s!"router keys not distinct / zero / wrong count: {got}"⟩] }
+        | none => { st := {}, expected := some "ok <keys>" }
+      | _ => { st := {}, expected := some "ok <keys>" }
+  | [lk, a, b] =>
+    match a.toNat?, b.toNat? with
+    | some a, some b =>
+      let n := s.net.length
+      if lk == "link" || lk == "unlink" then
+        let up := lk == "link"
+        let validM := a < n && b < n && a != b && (s.links.contains (a, b) != up)
+        let links' := if up then (a, b) :: (b, a) :: s.links else s.links.filter fun p => p != (a, b) && p != (b, a)
+        let spLinks' := if up then (a, b) :: (b, a) :: sp.links else sp.links.filter fun p => p != (a, b) && p != (b, a)
+        let sp' := if got == "ok" then disturb { sp with links := spLinks' } else sp
+        { st := { s with links := if validM then links' else s.links, sp := sp' },
+          expected := some (if validM then "ok" else "skip"), cov := [lk] }
+      else if lk == "fetch" then
+        -- spec side
+        let specFails := if got == "skip" then [] else advFiniteFails s!"r{a}" got
+        let sp' :=
+          if got == "skip" then sp else
+          let nbr := if sp.nbr.contains (a, b) then sp.nbr else (a, b) :: sp.nbr
+          let pend := sp.pending.filter fun p => p != (a, b)
+          if pend.isEmpty then { sp with nbr := nbr, pending := sp.links, rounds := sp.rounds + 1 }
+          else { sp with nbr := nbr, pending := pend }
+        -- model side
+        if a < n && b < n && a != b && s.links.contains (a, b) then
+          match s.net.fetch a b (b + 1) with
+          | some (net', dirty) =>
+            let ru := (net'.get? a).getD (Router.start 0)
+            let selfKey := s.keys.getD a 0
+            let adv := ((s.net.get? b).map (·.rib.advert)).getD []
+            let before := ((s.net.get? a).map (·.rib.entries.length)).getD 0
+            let cov :=
+              [if dirty then "fetch-dirty" else "fetch-clean"] ++
+              (if adv.any (fun x => x.nh == selfKey && x.other < inf) then ["poison-reverse-other"] else []) ++
+              (if adv.any (fun x => x.nh == selfKey && !(x.other < inf)) then ["poison-reverse-infinite"] else []) ++
+              (if adv.any (fun x => x.nh != selfKey && x.cost + 1 ≥ inf) then ["skip-at-infinity"] else []) ++
+              (if ru.rib.entries.length < before then ["prune-delete"] else []) ++
+              (if ru.rib.entries.length > before then ["new-destination"] else []) ++
+              (if ru.rib.entries.any (fun e => e.best.low1 == e.best.low2 && e.best.low1 < inf) then ["tie-break"] else []) ++
+              (if ru.rib.entries.any (fun e => e.best.low1 ≥ 8) then ["counting-up"] else [])
+            { st := { s with net := net', sp := sp' }, expected := some (dumpRouter s.keys ru), spec := specFails, cov := cov }
+          | none => { st := { s with sp := sp' }, expected := some "skip", spec := specFails }
+        else { st := { s with sp := sp' }, expected := some "skip", spec := specFails, cov := ["fetch-skip"] }
+      else if lk == "dead" then
+        let specFails := if got == "skip" then [] else advFiniteFails s!"r{a}" got
+        let sp' := if got == "skip" then sp else disturb { sp with nbr := sp.nbr.filter fun p => p != (a, b) }
+        if a < n && b < n && a != b then
+          match s.net.dead a b with
+          | some (net', dirty) =>
+            let ru := (net'.get? a).getD (Router.start 0)
+            { st := { s with net := net', sp := sp' }, expected := some (dumpRouter s.keys ru), spec := specFails,
+              cov := [if dirty then "dead-dirty" else "dead-clean"] }
+          | none => { st := { s with sp := sp' }, expected := some "skip", spec := specFails, cov := ["dead-skip"] }
+        else { st := { s with sp := sp' }, expected := some "skip", spec := specFails }
+      else { st := s, expected := some "bad-op" }
+    | _, _ => { st := s, expected := some "bad-op" }
+  | ["check"] =>
+    if s.net.isEmpty && sp.n == 0 then { st := s, expected := some "skip" } else
+    let parts := got.splitOn " ; "
+    let advs : List (Option (List Spec.Obs)) := parts.map fun p => parseAdv ((" ".intercalate ((p.splitOn " ").drop 1)))
+    let finiteFails := ((List.range parts.length).zip parts).flatMap fun (i, p) =>
+      advFiniteFails s!"r{i}" (" ".intercalate ((p.splitOn " ").drop 1))
+    let converged := staleFree sp && sp.rounds ≥ Spec.boundRounds && parts.length == sp.n
+    let t := topoOf sp
+    let spFails : List SpecFail :=
+      if !converged then [] else
+      ((List.range sp.n).zip advs).flatMap fun (u, a) =>
+        match a with
+        | some adv => (Spec.shortestPathFailures t sp.keys u adv).map fun m =>
+            ⟨"shortest-path-at-quiescence", s!"n={sp.n}", s!"after {sp.rounds} fair rounds: {m}"⟩
+        | none => []
+    let stableFails : List SpecFail :=
+      if !converged then [] else
+      match sp.stable with
+      | some prev => if prev == got then [] else
+          [⟨"fixed-point-stable", s!"n={sp.n}", s!"tables still change after {sp.rounds} fair rounds: {prev}  -->  {got}"⟩]
+      | none => []
+    let sp' := if converged then { sp with stable := some got } else sp
+    let hasUnreach := converged && (List.range sp.n).any fun d => (Spec.distsTo t d).any fun k => k ≥ Spec.infinity
+    { st := { s with sp := sp' }, expected := some (dumpAll s.keys s.net),
+      spec := finiteFails ++ spFails ++ stableFails,
+      cov := (if converged then ["check-converged"] else ["check-early"]) ++
+             (if converged && sp.stable.isSome then ["check-stable"] else []) ++
+             (if hasUnreach then ["unreachable-withdrawn"] else []),
+      nontrivial := converged && sp.n ≥ 3 }
+  | _ => { st := s, expected := some "bad-op" }
+
+end C18Drv
+
+def main : IO Unit := Ndn.Driver.run ({} : C18Drv.St) C18Drv.step
